@@ -214,6 +214,32 @@ def x_case(case, common, out):
                 if bad:
                     viol(out, "C12.R.cross:key-placed-differently", f"{sig}|{vname}", f"key {bad[0]!r}: partition {place[float(bad[0])]} in the int-column frame, {pi} in the {vname} frame", replay)
                     break
+        # the same key NAMED differently in the call: by label, by a list of labels, as a key Series, as a one-column key
+        # frame (seed C12_7: a key Series hashed as a Series instead of as a one-column frame gets other partition numbers)
+        bf = variants["float-column"]
+        key_forms = {
+            "int-column/on=['k']": lambda: a.shuffle(["k"], npartitions=nout),
+            "int-column/on=a.k (Series)": lambda: a.shuffle(a.k, npartitions=nout),
+            "int-column/on=a[['k']] (DataFrame)": lambda: a.shuffle(a[["k"]], npartitions=nout),
+            "float-column/on=b.k (Series)": lambda: bf.shuffle(bf.k, npartitions=nout),
+            "float-column/on=b[['k']] (DataFrame)": lambda: bf.shuffle(bf[["k"]], npartitions=nout),
+            "int-column/on=a.k (Series)/disk": lambda: a.shuffle(a.k, npartitions=nout, shuffle_method="disk"),
+        }
+        for vname, mk in key_forms.items():
+            try:
+                pb = [p.compute() for p in mk().to_delayed()]
+            except Exception as ex:
+                viol(out, "C12.R.cross:raises", f"{sig}|{vname}", f"{type(ex).__name__}: {str(ex)[:160]}", replay)
+                continue
+            bump(out, "C12.R.cross:same-key-same-partition-across-key-forms", f"{sig}|{vname}", rule="the key of one frame given by label / list of labels / key Series / one-column key frame, int and float values, equal npartitions")
+            if sorted(v for p in pb for v in p.v.tolist()) != sorted(pdf.v.tolist()):
+                viol(out, "C12.R.cross:not-a-permutation", f"{sig}|{vname}", f"{sum(len(p) for p in pb)} rows out, {len(pdf)} rows in", replay)
+                continue
+            for pi, p in enumerate(pb):
+                bad = [k for k in p.k.tolist() if place.get(float(k), pi) != pi]
+                if bad:
+                    viol(out, "C12.R.cross:key-placed-differently", f"{sig}|{vname}", f"key {bad[0]!r}: partition {place[float(bad[0])]} in the frame shuffled on='k', {pi} in the frame shuffled with {vname}", replay)
+                    break
         # the consumer relying on it: a hash join of the int-keyed and the float-keyed frame
         try:
             m = a.merge(variants["float-column"], on="k", how=how, broadcast=False)
@@ -248,6 +274,34 @@ def x_case(case, common, out):
                 viol(out, "C12.R.cross:hash-join-loses-rows", f"{sig}|two-column-key", f"{len(m2)} rows, pandas {len(e2)}", replay)
         except Exception as ex:
             viol(out, "C12.R.cross:raises", f"{sig}|two-column-key", f"{type(ex).__name__}: {str(ex)[:160]}", replay)
+        # two-column key of which ONE part is the named index of one input (int64) and a float64 column of the other:
+        # both inputs of the hash join must be placed by the whole key (seed C12_8: the side whose key list mentions
+        # the index name was partitioned by the index alone)
+        left_p = pdf[["ki", "v"]].assign(r=pdf.v.to_numpy() % 3).set_index("ki").rename_axis("k1")
+        right_p = pd.DataFrame({"p": pdf.kf.to_numpy(), "q": pdf.v.to_numpy() % 3, "w": pdf.v.to_numpy() + 1000})
+        for sort in (False, True):
+            for method in ("tasks", "disk"):
+                if method == "disk" and (sort or how != "inner"):
+                    continue
+                lbl = f"{sig}|index-level+column-key|sort={sort}|{method}"
+                try:
+                    dl = dx.from_pandas(left_p, npartitions=nin1, sort=sort)
+                    dr = dx.from_pandas(right_p, npartitions=nin2, sort=False)
+                    for mirrored in (False, True):
+                        if not mirrored:
+                            got = dl.merge(dr, left_on=["k1", "r"], right_on=["p", "q"], how=how, broadcast=False, shuffle_method=method).compute()
+                            exp = left_p.merge(right_p, left_on=["k1", "r"], right_on=["p", "q"], how=how)
+                        else:
+                            got = dr.merge(dl, left_on=["q", "p"], right_on=["r", "k1"], how=how, broadcast=False, shuffle_method=method).compute()
+                            exp = right_p.merge(left_p, left_on=["q", "p"], right_on=["r", "k1"], how=how)
+                        bump(out, "C12.R.cross:hash-join-row-count", f"{lbl}|mirrored={mirrored}", rule="hash join int-keyed x float-keyed frame against pandas")
+                        pairs = lambda x: sorted((int(a_), int(b_)) for a_, b_ in zip(x.v.fillna(-1), x.w.fillna(-1)))
+                        if len(got) != len(exp):
+                            viol(out, "C12.R.cross:hash-join-loses-rows", f"{lbl}|mirrored={mirrored}", f"{len(got)} rows, pandas {len(exp)}", replay)
+                        elif pairs(got) != pairs(exp):
+                            viol(out, "C12.R.cross:hash-join-pairs-other-rows", f"{lbl}|mirrored={mirrored}", f"the (v, w) pairs differ from pandas; first {pairs(got)[:3]} vs {pairs(exp)[:3]}", replay)
+                except Exception as ex:
+                    viol(out, "C12.R.cross:raises", lbl, f"{type(ex).__name__}: {str(ex)[:160]}", replay)
 
 
 def replay_r(case):
